@@ -39,10 +39,28 @@ def grammar_facts(run):
         secs = [s for s in rhs if s in TRANSITION_SECTIONS]
         if secs != TRANSITION_SECTIONS or calls != ['proc_edge_end'] or rhs[1] not in ('T_ARROW', 'T_UNCONTROL_ARROW'):
             bad.append(dict(nonterminal='Transition', found=(rhs, calls)))
-    # the mid-rule action of a transition is proc_edge_begin with the arrow's controllable flag
+    for rhs, calls in by.get('TransitionOpt', []):
+        if rhs == ['Transition']:
+            continue
+        secs = [s for s in rhs if s in TRANSITION_SECTIONS]
+        if secs != TRANSITION_SECTIONS[:4] or calls != ['proc_edge_end'] or rhs[0] not in ('T_ARROW', 'T_UNCONTROL_ARROW'):
+            bad.append(dict(nonterminal='TransitionOpt', found=(rhs, calls)))
+    # the mid-rule action of a transition is proc_edge_begin with the arrow's controllable flag (and, chained, the remembered source)
+    mids = {}
     for r in G['rules']:
-        if r['lhs'].startswith('$@') and any(c[0] == 'proc_edge_begin' for c in (r.get('calls') or [])):
-            pass
+        for x in r['rhs']:
+            if x.startswith('$@'):
+                mids[x] = (r['lhs'], r['rhs'])
+    for r in G['rules']:
+        if r['lhs'].startswith('$@') and r['lhs'] in mids and mids[r['lhs']][0] in ('Transition', 'TransitionOpt'):
+            owner, orhs = mids[r['lhs']]
+            arrow = orhs[1] if owner == 'Transition' else orhs[0]
+            want_ctl = 'true' if arrow == 'T_ARROW' else 'false'
+            begins = [c for c in (r.get('calls') or []) if c[0] == 'proc_edge_begin']
+            args = [a.strip() for a in begins[0][1].split(',')] if begins else []
+            want_src = '$1' if owner == 'Transition' else 'rootTransId'
+            if len(begins) != 1 or len(args) != 3 or args[2] != want_ctl or args[0] != want_src:
+                bad.append(dict(nonterminal=owner, arrow=arrow, found=begins))
     if bad:
         run.tie_broken('parser.y no longer has the process-body structure XtaXml.v models', bad[:4])
     return len(GRAMMAR_FACTS) + 1
